@@ -38,7 +38,7 @@ def uidClass (s : String) : UidClass :=
 
 def parseMsgPart (kv : KV) (p : String) : MessageMsg :=
   { recipient := { rtype := get kv (p ++ ".rtype"), sid := sidClass (get kv (p ++ ".rsid")), uid := uidClass (get kv (p ++ ".ruid")) },
-    dataNonEmpty := flag kv (p ++ ".data"),
+    dataNonEmpty := flag kv (p ++ ".data"), dataValid := get kv (p ++ ".dvalid") != "0",
     data := { jsonOk := get kv (p ++ ".dj") == "ok", dtype := get kv (p ++ ".dtype"),
               roomType := (let r := get kv (p ++ ".drt"); if r == "valid" then .valid else if r == "invalid" then .invalid else .empty),
               sdp := (let r := get kv (p ++ ".dsdp"); if r == "nostr" then .nostr else if r == "bad" then .bad else if r == "ok" then .ok else .none) } }
@@ -69,7 +69,7 @@ def parseMessage (kv : KV) : ClientMessage :=
     control := if flag kv "control" then some (parseMsgPart kv "c") else none,
     internal := if flag kv "internal" then some
       { itype := get kv "i.type",
-        add := if flag kv "i.add" then some { c := parseCommon kv "i.add", opts := flag kv "i.add.opts" } else none,
+        add := if flag kv "i.add" then some { c := parseCommon kv "i.add", opts := flag kv "i.add.opts", userValid := get kv "i.add.uvalid" != "0" } else none,
         upd := if flag kv "i.upd" then some { c := parseCommon kv "i.upd", flags := (get kv "i.upd.flags").toNat?, incall := (get kv "i.upd.incall").toInt? } else none,
         rem := if flag kv "i.rem" then some (parseCommon kv "i.rem") else none,
         incall := if flag kv "i.incall" then some ((get kv "i.incall.v").toInt?.getD 0) else none,
@@ -78,7 +78,7 @@ def parseMessage (kv : KV) : ClientMessage :=
             status := if flag kv "i.d.status" then some (get kv "i.d.st") else none } else none }
       else none,
     transient := if flag kv "transient" then some
-      { ttype := get kv "t.type", key := get kv "t.key", value := kv.lookup "t.value" } else none }
+      { ttype := get kv "t.type", key := get kv "t.key", value := kv.lookup "t.value", valueValid := get kv "t.vvalid" != "0" } else none }
 
 def parseFrame (kv : KV) : Frame :=
   { size := natOf kv "size", binary := get kv "frame" == "bin",
@@ -99,7 +99,11 @@ def joinKinds (l : List String) : String :=
 
 def splitKinds (s : String) : List String := if s == "-" then [] else s.splitOn "+"
 
-def sub (a b : List String) : Bool := a.all b.contains
+/-- `pat` matches `k`: equal, or `pat` ends in `*` and is a prefix. -/
+def kindMatches (pat k : String) : Bool :=
+  pat == k || (pat.toList.getLast? == some '*' && (pat.toList.dropLast).isPrefixOf k.toList)
+
+def sub (a b : List String) : Bool := a.all (fun k => b.any (fun p => kindMatches p k))
 
 /-- The model allows a set of outputs (`must ⊆ seen ⊆ must ∪ may`); print what was
 seen if it is allowed, else the model's `must` set (so that the diff shows). -/
@@ -137,6 +141,7 @@ def sessOf (name : String) : Option Conn :=
   else if name == "internal" then some (.session { base with internal := true })
   else if name == "internalroom" then some (.session { base with internal := true, room := .by })
   else if name == "dialout" then some (.session { base with internal := true, dialoutFeat := true })
+  else if name == "federated" then some (.session { base with fed := true })
   else none
 
 structure St where
